@@ -451,9 +451,24 @@ func c20SubscriberStack(r *Run) {
 		}
 	}()
 	r.Sim.Quiesce()
+	// a quarter of the runs: the inner subscriber's first Close reports an error, and the caller closes again: every
+	// Close call passes through, with its result
+	closeTwice := t.Chance(1, 4)
+	if closeTwice {
+		inner.CloseErrAt = 1
+		r.Fault("subscriber-close-error")
+	}
 	closeReturned := false
 	go func() {
-		if err := sub.Close(); err != nil {
+		err := sub.Close()
+		if closeTwice {
+			if err == nil || (!errors.Is(err, ErrScriptedClose) && !strings.Contains(err.Error(), "scripted close error")) {
+				r.Fail("C20.R2", "the inner subscriber's Close error did not pass through the decorators", "%v", err)
+			}
+			if err2 := sub.Close(); err2 != nil {
+				r.Fail("C20.R2", "a repeated Close through the subscriber decorators failed although the inner one succeeded", "%v", err2)
+			}
+		} else if err != nil {
 			r.Fail("C20.R2", "Close through the subscriber decorators failed", "%v", err)
 		}
 		closeReturned = true
@@ -463,8 +478,12 @@ func c20SubscriberStack(r *Run) {
 		r.Fail("C20.R2", "Close of a decorated subscriber never returned", "stack %v, cancelled in flight=%v, consumer holds a message=%v", names, cancelAt >= 0, holdAt >= 0)
 		return
 	}
-	if inner.Closes != 1 {
-		r.Fail("C20.R2", "Close did not pass through the subscriber decorators exactly once", "inner Close calls: %d", inner.Closes)
+	wantCloses := 1
+	if closeTwice {
+		wantCloses = 2
+	}
+	if inner.Closes != wantCloses {
+		r.Fail("C20.R2", "Close did not pass through the subscriber decorators exactly once", "inner Close calls: %d for %d calls", inner.Closes, wantCloses)
 	}
 	// the message the consumer held back is settled only now, after Close: it is a settled received message all the same
 	if holdAt >= 0 && holdAt < len(got) {
@@ -536,7 +555,7 @@ func c20RouterMetrics(r *Run) {
 			u := fmt.Sprintf("%s-m%d", h.name, m)
 			h.sub.Script["in"] = append(h.sub.Script["in"], ScriptMsg{UUID: u, Payload: "x"})
 			for a := 0; a <= 3; a++ {
-				h.plan[fmt.Sprintf("%s#%d", u, a)] = t.Int(6)
+				h.plan[fmt.Sprintf("%s#%d", u, a)] = t.Int(7)
 			}
 		}
 		hs = append(hs, h)
@@ -569,6 +588,11 @@ func c20RouterMetrics(r *Run) {
 			case 4:
 				wantHandler["handler_name="+hh.name+",success=true"]++
 				return nil, nil
+			case 6:
+				// the handler gives up because something it called was cancelled: an invocation that failed, like any other
+				r.Fault("handler-error")
+				wantHandler["handler_name="+hh.name+",success=false"]++
+				return nil, fmt.Errorf("downstream call: %w", context.Canceled)
 			case 5:
 				// the received message itself is passed on (it has been through the metrics subscriber decorator): the
 				// publish call counts like any other
